@@ -188,6 +188,76 @@ func TestVerif_C12(t *testing.T) {
 			srv.Close()
 		}
 	}
+	decisions += vfC12Connection(rec)
 	rec.Eval(decisions)
 	rec.Sample(map[string]any{"modes": nModes, "relations": []string{"owner", "owner+group", "group", "aux-group", "other", "root", "root-is-owner", "root-is-owner-other-gid", "group-of-root-owned", "aux-group-of-root-owned", "other-of-root-owned"}, "masks": 64, "decisions": decisions})
+}
+
+// vfC12Connection: ACCESS on ONE connection of the real connection loop carrying calls of several
+// identities in turn; each decision must follow the class of the credential of that very call.
+func vfC12Connection(rec *evid.Rec) int {
+	n := 0
+	type cr struct {
+		uid, gid uint32
+		aux      []uint32
+	}
+	ids := []cr{{1000, 1000, nil}, {3000, 3000, nil}, {4000, 4000, []uint32{2000}}, {0, 0, nil}, {5000, 2000, nil}, {1000, 1000, nil}, {6000, 6000, []uint32{7, 2000, 9}}, {3000, 3000, nil}}
+	for _, mode := range []os.FileMode{0640, 0604, 0070, 0751} {
+		for _, kind := range []string{"f", "d"} {
+			fs := refs.New()
+			if kind == "f" {
+				fs.PlantFile("/o", []byte("x"), mode, 1000, 2000)
+			} else {
+				fs.PlantDir("/o", mode, 1000, 2000)
+			}
+			srv, err := vfNewSrv(fs, ExportOptions{AttrCacheTimeout: 1})
+			if err != nil {
+				rec.Infra(err.Error())
+				return n
+			}
+			c0 := srv.client()
+			root, _ := c0.mnt("/")
+			l, _ := c0.lookup(root, "o")
+			if l == nil || l.Status != 0 {
+				rec.Infra("lookup")
+				srv.Close()
+				return n
+			}
+			oh := vfFH(l.FH)
+			if node, ok := srv.ph.lookupNode(oh); ok {
+				node.mu.Lock()
+				node.attrs.Uid, node.attrs.Gid = 1000, 2000
+				node.mu.Unlock()
+			}
+			p := srv.pipe("127.0.0.1", 670)
+			for i, k := range ids {
+				_, raw, err := p.call(vfProgNFS, 3, 4, xdrw.AuthSys(uint32(i), "h", k.uid, k.gid, k.aux), xdrw.ArgAccess(oh, 0x3f))
+				if err != nil {
+					rec.Inconclusive(1)
+					break
+				}
+				rep, derr := rfc.DecodeReply(raw)
+				if derr != nil || rep.Denied || rep.AcceptStat != 0 {
+					continue
+				}
+				res, derr := rfc.DecodeNFS(4, rep.Body)
+				if derr != nil || res.Status != 0 || !res.Obj.Present {
+					continue
+				}
+				n++
+				a := res.Obj.A
+				must, may := vfAccessRule(a.Type == 2, a.Mode, a.UID, a.GID, k.uid, k.gid, k.aux, false, 0x3f)
+				desc := fmt.Sprintf("mode=%04o kind=%s call %d on one connection with AUTH_SYS %d:%d aux %v after %d other identities: granted=%#x want=%#x", mode, kind, i, k.uid, k.gid, k.aux, i, res.Access, must)
+				if res.Access&^may != 0 {
+					rec.Violate("C12/connection/over-grant", desc, desc)
+				} else if must&^res.Access != 0 {
+					rec.Violate("C12/connection/under-grant", desc, desc)
+				}
+				rec.Distinct(fmt.Sprintf("connection|%s|call=%d|granted=%#x", kind, i, res.Access))
+			}
+			p.close()
+			srv.Close()
+		}
+	}
+	return n
 }
